@@ -198,7 +198,7 @@ mutual
         let inst ← match e.inst with
           | some i => pure i
           | none => throw (.tse "slot outside component")
-        let slotName := match nameV with | .str s => s | v => pyStr v
+        let slotName := Djc.Render.slotNameOf nameV
         if isDefault then
           let s ← get
           (match Djc.Render.alGet inst.id s.defaults with
